@@ -56,6 +56,12 @@ def gen_shapes(ck, thorough):
         'data75': push(rnd(74)), 'len252': push(rnd(250)), 'len253': push(rnd(251)), 'nonstd': bytes([0x6a]) + push(rnd(9)),
         'ops': bytes([0x51, 0x52, 0x93, 0x53, 0x87]),
         'p2pkh-single': push(sigs[0][:-1] + b'\x03') + push(keys[0][1]), 'p2pk-acp': push(sigs[1][:-1] + b'\x81'),
+        # signature and key pushed with OP_PUSHDATA1 / OP_PUSHDATA2 (non-minimal pushes, common in old transactions): kept verbatim
+        'p2pkh-pushdata1': b'\x4c' + bytes([len(sigs[0])]) + sigs[0] + b'\x4c' + bytes([len(keys[0][1])]) + keys[0][1],
+        'p2pkh-pushdata1-key': push(sigs[0]) + b'\x4c' + bytes([len(keys[0][1])]) + keys[0][1],
+        'p2pkh-pushdata2': b'\x4d' + len(sigs[0]).to_bytes(2, 'little') + sigs[0] + push(keys[0][1]),
+        'p2pk-pushdata1': b'\x4c' + bytes([len(sigs[1])]) + sigs[1],
+        'p2sh-multisig-pushdata1': b'\x00' + b'\x4c' + bytes([len(sigs[0])]) + sigs[0] + push(sigs[1]) + push(redeem),
     }
     wits = {
         'none': [], 'one-empty': [b''], 'one-zero': [b'\x00'], 'one-01': [b'\x01'], 'p2wpkh': [sigs[0], keys[0][1]],
@@ -122,7 +128,8 @@ def gen_shapes(ck, thorough):
         k = rng.randrange(2, 4)
         spec = []
         for _ in range(k):
-            sk = rng.choice(['empty', 'empty', 'p2sh-p2wpkh', 'p2sh-p2wsh', 'p2pkh', 'zero', 'op1', 'p2sh-multisig'])
+            sk = rng.choice(['empty', 'empty', 'p2sh-p2wpkh', 'p2sh-p2wsh', 'p2pkh', 'zero', 'op1', 'p2sh-multisig', 'p2pkh-pushdata1',
+                             'p2pkh-pushdata1-key'])
             spec.append((sk, rng.choice([w for w in wk_list if compatible(sk, w)]), False))
         outs = [rng.choice(list(out_scripts)) for _ in range(rng.randrange(1, 4))]
         shapes.append((mk(spec, outs, rng.randrange(5), rng.randrange(5)), ('mix', k, tuple(w for _, w, _ in spec))))
